@@ -45,8 +45,8 @@ Proof.
   induction d as [|p d IH]; [reflexivity|]. intros H.
   change (p :: d) with ([p] ++ d) in *. rewrite dop_app in H. rewrite forallb_app in H.
   apply andb_prop in H as [Hp Hd]. rewrite dc_app, dac_app, (IH Hd). f_equal.
-  destruct p; try reflexivity. cbn in Hp. cbn. unfold cfree in Hp.
-  destruct (expr_comments e); [reflexivity|discriminate].
+  destruct p; try reflexivity; cbn in Hp; cbn; unfold cfree in Hp;
+    (destruct (expr_comments e); [reflexivity|discriminate]).
 Qed.
 
 (* ------------------------------------------------------------------ well-formed comment attachment *)
@@ -234,8 +234,9 @@ Section Fmt.
     let HK := fresh "HK" in
     match goal with |- K ?e /\ KC ?e =>
       assert (HK : K e) by
-        (intros _ ?; rewrite fmtd_eq; unfold impl_doc;
-         destruct (fits_single _ _ _ _); apply opaque_keeps);
+        (intros _ ?; rewrite fmtd_eq; unfold impl_doc; cbn [multiline_doc contains_comments];
+         rewrite ?andb_false_r; cbn [negb andb];
+         repeat match goal with |- context [if ?b then _ else _] => destruct b end; apply opaque_keeps);
       split; [exact HK | intros Hw; apply cond_doc_step; [exact (HK Hw) | intros; discriminate]]
     end.
   Ltac finish HK :=
@@ -255,7 +256,7 @@ Section Fmt.
       intros items H.
       assert (HK : K (EList items)).
       { intros Hw i. rewrite fmtd_eq. unfold impl_doc.
-        destruct (fits_single _ _ _ _); [apply opaque_keeps|].
+        match goal with |- context [if ?b then _ else _] => destruct b end; [apply opaque_keeps|].
         cbn [multiline_doc]. apply list_doc_keeps.
         cbn [wf_ast] in Hw. rewrite forallb_forall in Hw.
         rewrite Forall_forall in *. intros c Hc. apply (H c Hc). apply Hw, Hc. }
@@ -264,7 +265,7 @@ Section Fmt.
       intros entries H.
       assert (HK : K (ERec entries)).
       { intros Hw i. rewrite fmtd_eq. unfold impl_doc.
-        destruct (fits_single _ _ _ _); [apply opaque_keeps|].
+        match goal with |- context [if ?b then _ else _] => destruct b end; [apply opaque_keeps|].
         cbn [multiline_doc]. apply record_doc_keeps.
         cbn [wf_ast] in Hw. rewrite forallb_forall in Hw.
         rewrite Forall_forall in *. intros c Hc. specialize (H c Hc). specialize (Hw c Hc).
@@ -285,7 +286,7 @@ Section Fmt.
       assert (HK : K (ECond e1 e2 e3)).
       { intros Hw i. cbn [wf_ast] in Hw. apply andb_prop in Hw as [Hw H3]. apply andb_prop in Hw as [H1 H2].
         rewrite fmtd_eq. unfold impl_doc.
-        destruct (fits_single _ _ _ _); [apply opaque_keeps|].
+        match goal with |- context [if ?b then _ else _] => destruct b end; [apply opaque_keeps|].
         cbn [multiline_doc expr_comments]. apply (KC3 H3); [apply (K1 H1)|apply (K2 H2)]. }
       split; [exact HK|].
       intros Hw; apply cond_doc_step; [exact (HK Hw)|].
@@ -306,38 +307,74 @@ Section Fmt.
       intros x v [IHe _].
       assert (HK : K (EAssign x v)).
       { intros Hw i. rewrite fmtd_eq. unfold impl_doc.
-        destruct (fits_single _ _ _ _); [apply opaque_keeps|].
+        match goal with |- context [if ?b then _ else _] => destruct b end; [apply opaque_keeps|].
         cbn [multiline_doc expr_comments]. rewrite dac_cons. apply IHe, Hw. }
       finish HK.
     - (* EOutput *)
       intros v [IHe _].
       assert (HK : K (EOutput v)).
       { intros Hw i. rewrite fmtd_eq. unfold impl_doc.
-        destruct (fits_single _ _ _ _); [apply opaque_keeps|].
+        match goal with |- context [if ?b then _ else _] => destruct b end; [apply opaque_keeps|].
         cbn [multiline_doc expr_comments]. rewrite dac_cons. apply IHe, Hw. }
       finish HK.
     - (* ECall *)
       intros f args [IHf _] H.
       assert (HK : K (ECall f args)).
       { intros Hw i. rewrite fmtd_eq. unfold impl_doc.
-        destruct (fits_single _ _ _ _); [apply opaque_keeps|].
+        match goal with |- context [if ?b then _ else _] => destruct b end; [apply opaque_keeps|].
         cbn [multiline_doc]. cbn [wf_ast] in Hw. apply andb_prop in Hw as [Hf Ha].
         apply call_doc_keeps; [apply IHf, Hf|].
         rewrite forallb_forall in Ha. rewrite Forall_forall in *. intros a Hin. apply (H a Hin), Ha, Hin. }
       finish HK.
-    - intros; opaque_case.
-    - intros; opaque_case.
+    - (* EAccess *)
+      intros a ix [IHa _] [IHi _].
+      assert (HK : K (EAccess a ix)).
+      { intros Hw i. rewrite fmtd_eq. unfold impl_doc.
+        match goal with |- context [if ?b then _ else _] => destruct b end; [apply opaque_keeps|].
+        cbn [multiline_doc]. match goal with |- context [if ?b then _ else _] => destruct b end; [|apply opaque_keeps].
+        cbn [wf_ast] in Hw. apply andb_prop in Hw as [H1 H2].
+        rewrite !dac_app, dac_wrap_parens, (IHa H1 _), (IHi H2 _). cbn. now rewrite app_nil_r. }
+      finish HK.
+    - (* EDot *)
+      intros a f [IHa _].
+      assert (HK : K (EDot a f)).
+      { intros Hw i. rewrite fmtd_eq. unfold impl_doc.
+        match goal with |- context [if ?b then _ else _] => destruct b end; [apply opaque_keeps|].
+        cbn [multiline_doc]. match goal with |- context [if ?b then _ else _] => destruct b end; [|apply opaque_keeps].
+        rewrite !dac_app, dac_wrap_parens, (IHa Hw _). cbn. now rewrite app_nil_r. }
+      finish HK.
     - (* EBin *)
       intros op e1 e2 [IH1 _] [IH2 _].
       assert (HK : K (EBin op e1 e2)).
       { intros Hw i. rewrite fmtd_eq. unfold impl_doc.
-        destruct (fits_single _ _ _ _); [apply opaque_keeps|].
+        match goal with |- context [if ?b then _ else _] => destruct b end; [apply opaque_keeps|].
         cbn [multiline_doc]. cbn [wf_ast] in Hw. apply andb_prop in Hw as [H1 H2].
         apply binop_doc_keeps; [apply IH1, H1|apply IH2, H2]. }
       finish HK.
-    - intros; opaque_case.
-    - intros; opaque_case.
-    - intros; opaque_case.
+    - (* EUn *)
+      intros op x [IHx _].
+      assert (HK : K (EUn op x)).
+      { intros Hw i. rewrite fmtd_eq. unfold impl_doc.
+        match goal with |- context [if ?b then _ else _] => destruct b end; [apply opaque_keeps|].
+        cbn [multiline_doc]. match goal with |- context [if ?b then _ else _] => destruct b end; [|apply opaque_keeps].
+        rewrite !dac_app, dac_wrap_parens, (IHx Hw _). reflexivity. }
+      finish HK.
+    - (* EFact *)
+      intros x [IHx _].
+      assert (HK : K (EFact x)).
+      { intros Hw i. rewrite fmtd_eq. unfold impl_doc.
+        match goal with |- context [if ?b then _ else _] => destruct b end; [apply opaque_keeps|].
+        cbn [multiline_doc]. match goal with |- context [if ?b then _ else _] => destruct b end; [|apply opaque_keeps].
+        rewrite !dac_app, dac_wrap_parens, (IHx Hw _). cbn. now rewrite app_nil_r. }
+      finish HK.
+    - (* ESpread *)
+      intros x [IHx _].
+      assert (HK : K (ESpread x)).
+      { intros Hw i. rewrite fmtd_eq. unfold impl_doc.
+        match goal with |- context [if ?b then _ else _] => destruct b end; [apply opaque_keeps|].
+        cbn [multiline_doc]. match goal with |- context [if ?b then _ else _] => destruct b end; [|apply opaque_keeps].
+        rewrite !dac_app, (IHx Hw _). reflexivity. }
+      finish HK.
   Qed.
 
   (* Every comment of the AST is either shown by the document or sits under an expression the
